@@ -14,6 +14,8 @@ func All() []*vk.Check {
 		C07(),
 		C08(),
 		C09(),
+		C10(),
+		C11(),
 		C13(),
 		C14(),
 		C15(),
